@@ -83,6 +83,50 @@ pub fn all() -> Vec<Prop> {
             shards_thorough: 16,
         },
         Prop {
+            id: "C05",
+            run: props::minmax::run_c05,
+            replayers: props::minmax::replayers,
+            rule: "proptest: element type (i32, u8, i64, f32, f64) x 0-4-D shape incl. zero-length axes and 0-D x layout (view into a sentinel parent: permuted/stepped/reversed/padded) x ownership (view, owned C, owned F, ArcArray, CowArray borrowed/owned) x static/dynamic dimension x values (ties, signed zeros, infinities, one NaN at first/middle/last position, several NaNs). Oracle: independent scan of the logical data: Ok(idx) => a[idx] <= (>=) every element, *min() == a[argmin()] under IEEE ==, EmptyInput <=> no elements, UndefinedOrder <=> a NaN is present (non-empty). The returned index is not required to be the first extremum. Distinct by hash. Non-trivial: >= 2 elements and (a tie for the extremum, a NaN, or a non-standard layout/ownership).",
+            assumptions: COMMON_ASSUMPTIONS,
+            profiles_quick: BOTH,
+            profiles_thorough: BOTH,
+            shards_quick: 8,
+            shards_thorough: 16,
+        },
+        Prop {
+            id: "C11",
+            run: props::hist::run_c11,
+            replayers: props::hist::replayers_c11,
+            rule: "proptest histories: grid of 1-3 axes, each axis an arbitrary edge list (unsorted, duplicates, 0/1/2..8 edges; i32, i64, N64), 0..60 (quick) / 120 (thorough) add_observation operations with coordinates drawn from the edges themselves, their neighbours, below the first and beyond the last edge. Model: dictionary index-tuple -> count with bin lookup by linear scan. After EVERY step counts() is compared with the model at every index, its shape with grid.shape(), and the return value with the model (BinNotFound <=> no bin; a rejected insert changes nothing). Then the same observations as a row-major matrix, a column-major matrix and in a permuted order through HistogramExt::histogram. Distinct by hash. Non-trivial: >= 2 axes with different bin counts, at least one accepted, one rejected and one on-an-edge observation.",
+            assumptions: COMMON_ASSUMPTIONS,
+            profiles_quick: BOTH,
+            profiles_thorough: BOTH,
+            shards_quick: 8,
+            shards_thorough: 16,
+        },
+        Prop {
+            id: "C12",
+            run: props::hist::run_c12,
+            replayers: props::hist::replayers_c12,
+            rule: "proptest: element type (i32, i64, u32, usize within +-MAX/4; N64) x strategy (Sqrt, Rice, Sturges, FreedmanDiaconis, Auto) x data of length 0..400 (quick) / 10^4 (thorough) from classes k/d grids (inexact in binary), large offset + spread down to single ulps, heavy ties (zero IQR) with outliers, moderate values, constant, empty; 1 column through from_array, 1-3 columns through GridBuilder followed by histogram. Domain precondition (counted as discarded): (max-min)/bin_width() <= 1e5. Termination is decided by a fuel budget of 64*(bins+2)+1000 iterations of the counting loop (hook), not by a clock. Oracle: empty => EmptyInput, constant => Strategy; accepted => first edge == min, equal widths (ints exactly, N64 within 2 ulp of the largest edge), last edge > max and last - max <= width, every observation in exactly one bin, histogram total == n, n_bins() == bins built (N64: when width >= 4 ulp of the largest edge). Distinct by hash. Non-trivial: accepted, >= 3 distinct values and (N64, or integer width >= 2, or span >= 2^20).",
+            assumptions: COMMON_ASSUMPTIONS,
+            profiles_quick: BOTH,
+            profiles_thorough: BOTH,
+            shards_quick: 8,
+            shards_thorough: 16,
+        },
+        Prop {
+            id: "C13",
+            run: props::hist::run_c13,
+            replayers: props::hist::replayers_c13,
+            rule: "Enumeration: every sequence of length <= 6 (quick) / 7 (thorough) over the alphabet {0,2,..,2L} as edge input (every multiset and every order; via From<Vec> and From<Array1>), probed with every integer in -1..2L+1 (below, on, between, above). Random: i64/i32/u8/N64 edge lists up to 200 values, probes on and next to every edge; grids of 1-3 axes with every accessor (ndim, shape, projections, index_of, index incl. out-of-range tuples). Oracle: BTreeSet for the edges, linear scan e_i <= v < e_(i+1) for lookup, mutual consistency of indices_of / index_of / range_of / index. Non-trivial: >= 3 distinct edges and a probe strictly inside or on an interior edge (edges); >= 2 axes with >= 3 edges each and a point inside (grid).",
+            assumptions: COMMON_ASSUMPTIONS,
+            profiles_quick: BOTH,
+            profiles_thorough: BOTH,
+            shards_quick: 8,
+            shards_thorough: 16,
+        },
+        Prop {
             id: "C14",
             run: props::skip::run_c14,
             replayers: props::skip::replayers_c14,
